@@ -30,7 +30,7 @@ F3 == { [Base EXCEPT !.patch = "url", !.phash = h, !.purl = u, !.pcache = c, !.c
       \cup { [Base EXCEPT !.patch = "files", !.pfiles = "good", !.phash = h, !.parch = a, !.cmd = k] :
                 h \in B, a \in {"garbage", "trunc"}, k \in Cmds }
 \* F4: diff files, alone and after an overlay; the source comes through a download as well
-F4 == { [s EXCEPT !.diff = d, !.patch = p, !.pdir = "present", !.cmd = k] :
+F4 == { [s EXCEPT !.diff = d, !.patch = p, !.pdir = (IF p = "dir" THEN "present" ELSE "absent"), !.cmd = k] :
             s \in {Base, [Base EXCEPT !.mode = "url", !.url = "good", !.files = "absent"]},
             d \in {"good", "bad", "missing"}, p \in {"none", "dir"}, k \in {"download", "setup"} }
 Families == F1 \cup F2 \cup F3 \cup F4
